@@ -142,7 +142,7 @@ def run(clause, ks):
 
         from ovld.types import Dataclass as _Dataclass
 
-        vals += [T.Point(), T.Point3()]
+        vals += [T.Point(), T.Point3(), T.Stop()]
         for t in terms[ks[0]]:
             if has_alias(t):
                 continue  # isinstance against a parametrised generic is a TypeError in CPython: outside the property's domain
